@@ -325,6 +325,19 @@ def gen_case(rng, disciplined):
         pat = [("FRead", n1), ("FSeek", q, 0), ("FRead", n2), ("FSeek", tgt, 0), ("FRead", rng.randrange(1, 9)),
                ("FTell",), ("FSeek", rng.randrange(0, 10), 0), ("FReadline", None)]
         ops = pat + ops
+    if mode in ("r+", "w+") and (exists or mode == "w+") and rng.random() < 0.4:
+        # write-side twin of the cached-position probe: ONE server-side write of n bytes at offset X != 0 (no newline,
+        # flushed by seek(0, 1), so that the request carries exactly these n bytes), then a read or a write at offset
+        # exactly n (where a cache wrongly set to the LENGTH would sit), then at X + n (which must keep working)
+        x = rng.randrange(1, 21)
+        n = rng.choice([k for k in range(1, 9) if k != x])
+        d = bytes(rng.choice(b"MNOPQ") for _ in range(n))
+        probe = [("FRead", rng.randrange(1, 5))] if rng.random() < 0.5 else \
+                [("FWrite", bytes(rng.choice(b"stu") for _ in range(rng.randrange(1, 4))))]
+        probe2 = [("FRead", rng.randrange(1, 5))] if rng.random() < 0.5 else [("FWrite", b"vw")]
+        pat = [("FSeek", x, 0), ("FWrite", d), ("FSeek", 0, 1), ("FSeek", n, 0)] + probe + \
+              [("FSeek", 0, 1), ("FTell",), ("FSeek", x + n, 0)] + probe2 + [("FSeek", 0, 0), ("FRead", None)]
+        ops = pat + ops
     if disciplined:
         ops = discipline(ops, mode)
         if mode != "r" and rng.random() < 0.25:
